@@ -21,6 +21,16 @@ PROPS = {
         "level_text": "Seeded exploration of BiMap operation histories (all six mutators plus construction, over an alphabet with falsy symbols so that key/value collisions are frequent) with the complete public observation compared to a textbook two-dict model after every step. Histories, not single calls, are what the property quantifies over; exploration is the level a sampled history space supports.",
         "level_note": "Trusted: the 20-line reference model in props/c18.py. Alphabet excludes None and bools (None is the implementation's 'absent' sentinel for get_left/get_right; True == 1 as a dict key).",
     },
+    "C01": {
+        "engine": "B", "level": "exploration",
+        "tiers": {"quick": {"batches": 16, "runs": 250, "budget_s": 50, "floor_runs": 800},
+                  "thorough": {"batches": 64, "runs": 3000, "budget_s": 550, "floor_runs": 30000}},
+        "rule": "TBD",
+        "real": ["all builders (Dfg, Function, Module, Cfg/Block, Conditional/Case/If/Else, TailLoop, TrackedDfg), ops, tys, val, graph store, JSON serialiser"],
+        "stub": ["hugr validate (Rust) -> oracles/refvalidate.py"],
+        "technique": "seeded interleaving of open builder actors on one shared Hugr (type-directed well-formed programs), output checked by a reference validator written from validate.rs",
+        "level_text": "TBD", "level_note": "TBD",
+    },
     "C04": {
         "engine": "A", "level": "exploration",
         "tiers": {"quick": {"batches": 16, "runs": 400, "budget_s": 45, "floor_runs": 1500},
@@ -69,6 +79,23 @@ PROPS = {
         "technique": "lock-step refinement of two builders under one seeded step sequence, with an index model translating integer arguments; one faulty request (untracked index) may be injected, after which the run fail-stops",
         "level_text": "The statement is an equivalence between two ways of driving a builder over all step sequences; the check runs both in lock-step under one seeded history and compares the tracked-wire list with an index model after every step and the two HUGRs node for node and link for link. An untracked index is injected as a faulty request in some runs and must raise IndexError.",
         "level_note": "Trusted: the index model in props/c15.py. Integer arguments are placed only at positions below the operation's output count; negative indices are not generated (Python list semantics vs 'untracked' is ambiguous). After an IndexError the run stops (nothing is promised about the builder afterwards).",
+    },
+    "C16": {
+        "engine": "A+B", "level": "exploration",
+        "tiers": {"quick": {"batches": 16, "runs": 300, "budget_s": 50, "floor_runs": 1000},
+                  "thorough": {"batches": 64, "runs": 2500, "budget_s": 550, "floor_runs": 30000}},
+        "rule": "one run = an engine-B builder program (handles returned by add_op / add / extend / call / load and by container "
+                "builders at the moment their outputs become known: nested DFG, conditional, tail loop, CFG), or an engine-A "
+                "history (add_node with explicit / without count, re-issued child handles), or direct add_node(num_outs=n) for "
+                "n in 0..8; every handle obtained is probed: iteration, outputs(), integer indices in [-n-2, n+2], slices with "
+                "start/stop in {None} u [-n-3, n+3] and step in {None,1,2,3} (all of them for n <= 6 in the thorough tier), "
+                "node-as-wire, port equality/hash; non-trivial = >= 3 builder/graph calls; distinct = distinct event-log digests",
+        "real": ["hugr.hugr.node_port (Node, ports, index normalisation), handle re-issue in the graph store, builders"], "stub": [],
+        "expected_probes": ["handle:add_op", "handle:call", "handle:load", "handle:nested-dfg-closed", "handle:conditional-closed",
+                            "handle:tail-loop-closed", "handle:cfg-closed", "graph_handle_known", "graph_handle_unknown"],
+        "technique": "handles harvested from seeded builder/graph histories (the count is a temporal fact: unknown until outputs are set), each probed against range(n) semantics; choice-trace minimisation",
+        "level_text": "The index algebra alone would be a pure function; what makes the property a history property is that the count a handle knows is fixed when the handle is issued and the library re-issues handles as builders learn their outputs. The check therefore harvests every handle real histories produce (with the count the reference semantics gives) and probes each against Python's range(n) indexing/slicing rules as the statement words them.",
+        "level_note": "Trusted: range(n) as the indexing reference; the generator's knowledge of each operation's output arity. load_function is not in the statement's list and its handle is not probed.",
     },
     "C19": {
         "engine": "D", "level": "exploration",
